@@ -153,6 +153,23 @@ func tierPick[T any](tier string, quick, thorough T) T {
 }
 
 func init() {
+	// what is left of the Splines router's known finding after fix 5a114c0: the end point of an edge sits on a CORNER of
+	// its corridor (only a zero-width node can: the end point is the middle of the node's side), or the positions come
+	// from Brandes-Koepf, which may leave nodes overlapping (C04 excludes it) so that a corridor has no interior
+	inputPreds["splines-zero-width-node-or-bk"] = func(in Input, c *Cfg) bool {
+		if c == nil || c.P5 != 4 {
+			return false
+		}
+		if c.P4 >= 4 {
+			return true
+		}
+		for i, n := 0, in.N(); i < n; i++ {
+			if w, _ := c.expSize(i); w == 0 {
+				return true
+			}
+		}
+		return false
+	}
 	// ------------------------------------------------------------ C01
 	checks["C01"] = func(tier string) []*Pass {
 		noop := func(*Ctx, Input, *Analysis, Cfg, *Res) bool { return true }
@@ -168,6 +185,10 @@ func init() {
 				Bound: "all edge lists with 4 edges x 2x2x9x4 algorithms x {fixed, per-node} sizes"},
 			{Name: "G3-splines", BudgetS: 5, HeapMB: 256, Space: spaceG(1, 3, 0, nil), Eval: stdEval("C01", staticGrid(splines), noop),
 				Bound: "all edge lists with <=3 edges x 2x2x9 algorithms x splines x {fixed, per-node} sizes"},
+			{Name: "G4-splines-sa", BudgetS: 5, HeapMB: 256, Space: spaceG(4, 4, 0, nil), Eval: stdEval("C01", staticGrid(gridSpec{P1: allP1, P2: allP2, P4: []int{0, 1, 2, 3}, P5: []int{4}, SZ: []int{1, 9}}.list()), noop),
+				Bound: "all edge lists with 4 edges x {greedy,dfs} x {ns,lp} x 4 size-aware positioners x splines x {fixed, per-node mixed-parity} sizes (all widths positive: outside the known-finding class)"},
+			{Name: "G3-splines-wide", BudgetS: 5, HeapMB: 256, Space: spaceG(1, 3, 0, nil), Eval: stdEval("C01", staticGrid(gridSpec{P1: allP1, P2: allP2, P4: allP4, P5: []int{4}, SZ: []int{0, 1, 2, 3, 4}, SP: spAll}.list()), noop),
+				Bound: "all edge lists with <=3 edges x 2x2x9 algorithms x splines x 5 size modes (incl. no sizes at all) x 4 spacings (incl. 0)"},
 			{Name: "G4-random-greedy", Space: spaceG(1, 4, 0, func(in Input, a *Analysis) bool { return !a.DAG }), Eval: stdEval("C01", staticGrid(rnd), noop),
 				Bound: "all cyclic edge lists with <=4 edges x greedy-random with EVERY sequence of RNG answers x {ns,lp} x {sink,bk} x polyline"},
 			{Name: "G5-cheap-tail", Space: spaceG(5, 5, 0, nil), Eval: stdEval("C01", staticGrid(cheap), noop),
